@@ -11,3 +11,7 @@ pub use processor::{
     QueryInputError, QueryKillStatus, QueryKilled, QueryStatusError,
 };
 pub use state::{QueryStatus, min_status};
+
+/// Makes the harness module of the private `runner` module reachable from `crate::verif`.
+#[cfg(all(test, ipa_verif))]
+pub(crate) use runner::verif_h6;
